@@ -24,15 +24,22 @@ class AVal:
     """o = objects the value may BE; c = objects its elements / entries may be (containers are
     not conflated with what they hold); ek = kind of the elements of a container; items = the
     component values when the value is a tuple display of known length."""
-    __slots__ = ('o', 'c', 'kind', 'ek', 'items')
+    __slots__ = ('o', 'c', 'kind', 'ek', 'items', 'fields', 'efields')
 
-    def __init__(self, o=(), kind='unknown', c=(), ek='unknown', items=None):
+    def __init__(self, o=(), kind='unknown', c=(), ek='unknown', items=None, fields=None,
+                 efields=None):
         self.o = frozenset(o)
         self.c = frozenset(c)
         # 'scalar' | 'container' | 'ndarray' | 'array' | 'index' | 'object[:Cls]' | 'unknown'
         self.kind = kind
         self.ek = ek
         self.items = items
+        # fields: for an object built by a constructor of this repository, what each attribute
+        # set in __init__ may be (so that obj.data is not conflated with obj.bbox);
+        # efields: the same for the elements of a container of such objects.  None = unknown
+        # (attribute reads then fall back to "anything the object holds").
+        self.fields = fields
+        self.efields = efields
 
     def join(self, other):
         if not other.o and not other.c and other.items is None and other.kind == 'unknown':
@@ -49,11 +56,14 @@ class AVal:
         if self.items is not None and other.items is not None and \
                 len(self.items) == len(other.items):
             items = tuple(a.join(b) for a, b in zip(self.items, other.items))
-        return AVal(self.o | other.o, k, self.c | other.c, ek, items)
+        return AVal(self.o | other.o, k, self.c | other.c, ek, items,
+                    _join_fields(self.fields, other.fields, self, other),
+                    _join_fields(self.efields, other.efields, self, other, elem=True))
 
     def __eq__(self, other):
         return isinstance(other, AVal) and self.o == other.o and self.kind == other.kind \
-            and self.c == other.c and self.ek == other.ek and self.items == other.items
+            and self.c == other.c and self.ek == other.ek and self.items == other.items \
+            and self.fields == other.fields and self.efields == other.efields
 
     def __hash__(self):
         return hash((self.o, self.c, self.kind, self.ek))
@@ -63,6 +73,34 @@ class AVal:
 
     def all(self):
         return self.o | self.c
+
+
+def _join_fields(a, b, va, vb, elem=False):
+    """Join of two attribute maps: kept only when both sides know the same attributes (a None /
+    scalar side, or an empty container for element maps, contributes nothing)."""
+    def neutral(v):
+        if v.kind == 'scalar':
+            return True
+        if elem:
+            # an empty container, or an object of a known class (not iterable), has no elements
+            return (v.kind == 'container' and v.ek == 'empty' and not v.c) \
+                or v.kind.startswith('object:') or (v.fields is not None and v.efields is None)
+        return v.kind == 'container'        # a list / tuple has no constructor attributes
+    if a is None and b is None:
+        return None
+    if a is None:
+        return b if neutral(va) else None
+    if b is None:
+        return a if neutral(vb) else None
+    if set(a) != set(b):
+        return None
+    return {k: a[k].join(b[k]) for k in a}
+
+
+def _fields_repr(f):
+    if f is None:
+        return None
+    return tuple(sorted((k, repr(v), _fields_repr(v.fields)) for k, v in f.items()))
 
 
 def untag(o):
@@ -84,7 +122,10 @@ def _unlocal(v):
     items = None
     if v.items is not None:
         items = tuple(_unlocal(x) for x in v.items)
-    return AVal(m(v.o), v.kind, m(v.c) - {FRESH}, v.ek, items)
+
+    def mf(f):
+        return None if f is None else {k: _unlocal(x) for k, x in f.items()}
+    return AVal(m(v.o), v.kind, m(v.c) - {FRESH}, v.ek, items, mf(v.fields), mf(v.efields))
 
 
 def elems(v):
@@ -99,8 +140,8 @@ def elems(v):
             return AVal([FRESH], v.ek)
         if v.ek == 'container':
             return AVal([FRESH], 'container', v.c)
-        return AVal(v.c or {FRESH}, 'unknown', v.c)
-    return AVal({deep(x) for x in v.o} | set(v.c), 'unknown', v.c)
+        return AVal(v.c or {FRESH}, 'unknown', v.c, fields=v.efields)
+    return AVal({deep(x) for x in v.o} | set(v.c), 'unknown', v.c, fields=v.efields)
 
 
 def container(vals, items=False):
@@ -111,7 +152,13 @@ def container(vals, items=False):
         kinds.add(v.kind)
     c.discard(FRESH)
     ek = next(iter(kinds)) if len(kinds) == 1 else ('empty' if not kinds else 'unknown')
-    return AVal([FRESH], 'container', c, ek, tuple(vals) if items else None)
+    ef = None
+    if vals and all(v.fields is not None for v in vals) \
+            and all(set(v.fields) == set(vals[0].fields) for v in vals):
+        ef = dict(vals[0].fields)
+        for v in vals[1:]:
+            ef = {k: ef[k].join(v.fields[k]) for k in ef}
+    return AVal([FRESH], 'container', c, ek, tuple(vals) if items else None, efields=ef)
 
 
 FRESHV = AVal([FRESH])
@@ -169,7 +216,8 @@ class FuncInfo:
 
     def summary_sig(self):
         return (frozenset(self.effects), self.ret.o, self.ret.c, self.ret.kind, self.ret.ek,
-                repr(self.ret.items), frozenset(self.field_writes))
+                repr(self.ret.items), frozenset(self.field_writes),
+                _fields_repr(self.ret.fields), _fields_repr(self.ret.efields))
 
 
 class ClassInfo:
@@ -319,8 +367,10 @@ class World:
             return [], None
         if parts[0] in ('self', 'cls') and len(parts) == 2 and fi.cls is not None:
             f = self.find_method(fi.cls, parts[1])
-            # also methods defined in subclasses (abstract hooks)
-            return ([f] if f else self._sub_methods(fi.cls, parts[1])), None
+            # dynamic dispatch: the receiver may be an instance of a subclass that overrides
+            # the method (always so for abstract hooks)
+            subs = [g for g in self._sub_methods(fi.cls, parts[1]) if g is not f]
+            return (([f] if f else []) + subs), None
         if parts[0] in m.classes and len(parts) == 2:
             f = self.find_method(m.classes[parts[0]], parts[1])
             return ([f] if f else []), None
@@ -406,7 +456,7 @@ class Analyzer:
             import sys
             print(f'TRACE {self.fi.qualname}:{s.lineno}', file=sys.stderr)
             for nm in sorted({x.id for x in ast.walk(s) if isinstance(x, ast.Name)}):
-                print('   ', nm, env.get(nm), file=sys.stderr)
+                print('   ', nm, env.get(nm), 'fields', getattr(env.get(nm), 'fields', None) is not None, 'efields', getattr(env.get(nm), 'efields', None) is not None, file=sys.stderr)
         m = getattr(self, 's_' + type(s).__name__, None)
         if m is None:
             for n in ast.iter_child_nodes(s):
@@ -437,7 +487,8 @@ class Analyzer:
                 # allocation site: a fresh object bound to a local name gets its own identity so
                 # that in-place writes through aliases / views of it can be traced (loop
                 # independence); 'L:' origins never leave the function
-                v = AVal([f'L:{t.id}@{lineno}'], v.kind, v.c, v.ek, v.items)
+                v = AVal([f'L:{t.id}@{lineno}'], v.kind, v.c, v.ek, v.items, v.fields,
+                         v.efields)
             env[t.id] = v
         elif isinstance(t, (ast.Tuple, ast.List)):
             elts = valnode.elts if isinstance(valnode, (ast.Tuple, ast.List)) and \
@@ -483,9 +534,17 @@ class Analyzer:
             cur = env[node.id]
             extra = (v.o | v.c) - {FRESH, 'SELF'}
             ek = cur.ek
+            ef = cur.efields
             if v is not NONEV:
                 ek = v.kind if cur.ek == 'empty' else (cur.ek if cur.ek == v.kind else 'unknown')
-            env[node.id] = AVal(cur.o, cur.kind, cur.c | extra, ek)
+                if cur.ek == 'empty' and not cur.c:
+                    ef = v.fields
+                elif cur.efields is not None and v.fields is not None \
+                        and set(cur.efields) == set(v.fields):
+                    ef = {k: cur.efields[k].join(v.fields[k]) for k in v.fields}
+                else:
+                    ef = None
+            env[node.id] = AVal(cur.o, cur.kind, cur.c | extra, ek, cur.items, cur.fields, ef)
         elif isinstance(node, ast.Attribute) and isinstance(node.value, ast.Name) and \
                 node.value.id == 'self' and self.fi.cls is not None:
             s = self.fi.cls.field_alias_c.setdefault(node.attr, set())
@@ -909,7 +968,14 @@ class Analyzer:
         items = None
         if v.items is not None:
             items = tuple(self._map_ret(it, bound, same_self, recv) for it in v.items)
-        return AVal(o or {FRESH}, v.kind, (c | ec) - {FRESH}, v.ek, items)
+        return AVal(o or {FRESH}, v.kind, (c | ec) - {FRESH}, v.ek, items,
+                    self._map_fields(v.fields, bound, same_self, recv),
+                    self._map_fields(v.efields, bound, same_self, recv))
+
+    def _map_fields(self, f, bound, same_self, recv):
+        if f is None:
+            return None
+        return {k: self._map_ret(x, bound, same_self, recv) for k, x in f.items()}
 
     def attr_of_self(self, attr):
         fi = self.fi
@@ -955,6 +1021,8 @@ class Analyzer:
             return self.attr_of_self(n.attr)
         if n.attr in T.SCALAR_ATTRS or base.kind == 'scalar':
             return SCALAR
+        if base.fields is not None and n.attr in base.fields:
+            return base.fields[n.attr]      # attribute set by the constructor of a known class
         if base.kind.startswith('object:'):
             # property of an object of known class: reading it runs the getter
             ks = self.w.classes.get(base.kind[7:], [])
@@ -1081,6 +1149,15 @@ class Analyzer:
                 return self.apply_summaries(cands, n, args, kwargs, recv, env)
             return FRESHV
         cands, ctor_cls = self.w.resolve_call(self.fi, fname)
+        if cands and ctor_cls is None and isinstance(n.func, ast.Attribute) \
+                and isinstance(n.func.value, ast.Name) and args \
+                and n.func.value.id not in ('self', 'cls') \
+                and (n.func.value.id in self.fi.module.classes
+                     or n.func.value.id in self.fi.module.imports) \
+                and all(c.cls is not None and c.node.args.args
+                        and c.node.args.args[0].arg == 'self' for c in cands):
+            # unbound call through the class: Class.method(obj, ...) -- obj is the receiver
+            recv, args = args[0], args[1:]
         if not cands and recv is not None and recv.kind.startswith('object:'):
             ks = self.w.classes.get(recv.kind[7:], [])
             if ks:
@@ -1288,6 +1365,9 @@ class Analyzer:
                         self.write({deep(x) for x in recv.o} | set(recv.c), n.lineno, e.desc,
                                    via, e.site)
             # return value
+            if ctor_cls is None and not callee.ret.o and not callee.ret.c \
+                    and callee.ret.items is None and len(cands) > 1:
+                continue       # a candidate that never returns a value (abstract hook)
             ro, rc = set(), set()
 
             def mapo(o, into):
@@ -1316,20 +1396,33 @@ class Analyzer:
             if ctor_cls is not None:
                 # the new object holds references to the arguments its fields alias
                 c = set()
+                flds = {}
+                precise = True
                 for fld, srcs in all_field_alias(self.w, ctor_cls, both=True).items():
+                    fo = set()
                     for s in srcs:
                         if s.startswith('P:__init__:'):
                             p = s.split(':', 2)[2].rstrip('/')
                             if p in bound:
                                 c |= (bound[p].o | bound[p].c)
-                ret = ret.join(AVal([FRESH], f'object:{ctor_cls.name}', c - {FRESH, 'SELF'}))
+                                fo |= (bound[p].o | bound[p].c)
+                        elif s.startswith('P:'):
+                            precise = False      # set by another method from its parameters
+                        elif s not in (FRESH, 'SELF'):
+                            fo.add(s)
+                    flds[fld] = AVal((fo - {'SELF'}) or {FRESH}, 'unknown', fo - {FRESH, 'SELF'})
+                ret = ret.join(AVal([FRESH], f'object:{ctor_cls.name}', c - {FRESH, 'SELF'},
+                                    fields=flds if precise else None))
             else:
                 items = None
                 if callee.ret.items is not None:
                     items = tuple(self._map_ret(it, bound, same_self, recv)
                                   for it in callee.ret.items)
                 ret = ret.join(AVal(ro or {FRESH}, callee.ret.kind, rc - {FRESH}, callee.ret.ek,
-                                    items))
+                                    items,
+                                    self._map_fields(callee.ret.fields, bound, same_self, recv),
+                                    self._map_fields(callee.ret.efields, bound, same_self,
+                                                     recv)))
         return ret if ret.o else FRESHV
 
 
